@@ -122,6 +122,17 @@ let () =
           | None -> fails := Mismatch "model obs_take = P" :: !fails));
       !fails
     end);
+  (* orbit pocket board | #canonical members among the distinct relabelings, #distinct relabelings *)
+  register "orbit" (fun i o ->
+    if o.(0) = "P" then [Specfail ("c06_orbit_abort", "")] else begin
+    let d = deck () in
+    let ob = { pocket = n_of_string i.(1); public = n_of_string i.(2) } in
+    let imgs = Stdlib.List.sort_uniq compare (Stdlib.List.filter_map (fun p ->
+        match Iso.permute d p ob with Some q -> Some (string_of_n q.pocket ^ ":" ^ string_of_n q.public, q) | None -> None) GenPerm.coq_EXHAUST) in
+    let ncan = Stdlib.List.length (Stdlib.List.filter (fun (_, q) -> Iso.is_canonical d q) imgs) in
+    (if Printf.sprintf "%d %d" ncan (Stdlib.List.length imgs) = o.(0) ^ " " ^ o.(1) then [] else [Mismatch (Printf.sprintf "%d canonical of %d" ncan (Stdlib.List.length imgs))])
+    @ (if o.(0) = "1" then [] else [Specfail ("c06_one_representative_per_class", Printf.sprintf "%s of the %s relabelings of this observation are recognised as canonical" o.(0) o.(1))])
+    end);
   register "children" (fun i o ->
     let d = deck () in
     let pk = n_of_string i.(1) and pb = n_of_string i.(2) in
